@@ -52,6 +52,49 @@ CLAIMS = {
         design="3 (C11)"),
 }
 
+CLAIMS.update({
+    "C12": dict(
+        category="other",
+        text="Per enumerated (glob, options) program the real GlobBuilder is run and z3 decides for ALL paths up to L bytes: the "
+             "strategy a glob SET would choose for the glob (real MatchStrategy::new through the verif-hooks accessor) means the same "
+             "as the glob's own regex (G-STRAT); globs over the simple token subset (literals, ?, *, classes, escapes) mean what the "
+             "documented syntax says (G-MEAN, reference compiled independently). The set's index-merging code is exercised on "
+             "solver-chosen paths: one path per satisfiable combination of member verdicts for random and for RELATED member sets "
+             "(same strategy, nested prefixes/suffixes), real GlobSet::matches vs each member alone (G-SET). Kani lemmas on fully "
+             "symbolic 6-byte paths for pathutil::file_name / file_name_ext (the pieces the strategies look at).",
+        note="Bounds: L=7/10 bytes, all byte values (non-UTF-8 included); corpus = repo test globs + all 1-2 token strings + seeded random "
+             "3-4 token strings + curated, x option sets. G-SET is concrete execution of the real set on solver-generated inputs (labelled "
+             "so in the evidence), not a symbolic encoding of the hash-map/Aho-Corasick dispatch. `**` and `{}` are outside G-MEAN's reference.",
+        technique=H_TECH + "; Kani lemmas for the path pieces",
+        design="3 (C12), 7.2"),
+    "C04": dict(
+        category="other",
+        text="Per ignore line: the glob ripgrep compiles for it (taken from the real Gitignore through a solver-chosen matching path) "
+             "means, for ALL well-formed relative paths up to L bytes over a 9-character path alphabet, what gitignore(5) says "
+             "(I-LINE; the reference is compiled from the line's text). Every disagreement is replayed through the real Gitignore "
+             "(consulted top-down as the walker does) AND through `git check-ignore --no-index`: ripgrep != git is a violation, "
+             "ripgrep == git != reference is a reference bug (inconclusive). Two-line files (last match wins, negation, directory-only) "
+             "are executed on ripgrep and git on one solver-chosen path per satisfiable verdict combination x is_dir (I-FILE).",
+        note="Compared observable: is the path skipped or not (whitelist vs no-match is not observable from one file). Outside: lines with "
+             "three or more consecutive asterisks, `//`, non-ASCII; the on-disk walk, nested ignore files and parent directories (C05/C06); "
+             "trusted: git 2.39 as the oracle, regex-syntax.",
+        technique=H_TECH + " with git as replay oracle",
+        design="3 (C04), 7.2"),
+    "C19": dict(
+        category="model_checking",
+        text="Kani on fully symbolic buffers: grep_matcher's find_cap_ref agrees with the regex library's reference grammar on every "
+             "template of <=5 bytes (three harnesses partition the input space: unbraced, braced-plain, braced-any); the Matcher "
+             "trait's default find_iter / captures_iter (what replace_all is built on) yield exactly the regex library's successive "
+             "matches for every span table over <=4 bytes; printer::util::find_iter_at_in_context yields the pattern's matches in the "
+             "line's content for terminated and unterminated lines. Thorough tier: differential against regex_automata::util::interpolate "
+             "itself on a class alphabet.",
+        note="Template expansion is checked at the reference-grammar level (a 25-line transcription of the pinned regex-automata 0.4.7) in "
+             "the quick tier. Replacer::replace_all's copying of the text between matches and -U look-ahead window are not covered; the regex "
+             "engine's capture semantics are trusted.",
+        technique=K_TECH,
+        design="2 (C19), 7"),
+})
+
 NOT_APPLICABLE = {
     "C07": "quantifies over thread interleavings of crossbeam deques/atomics; Kani has no concurrency model and no available solver-based engine ingests this Rust; a hand model would not be the real code",
     "C08": "whole-process property over OS scheduling, stdout locking and channels; nothing in it is a bounded computation a solver can be given",
